@@ -321,7 +321,7 @@ pub fn one_run(seed: u64, run: u64, calls: usize) -> RunOutcome {
         }
         st.inc(&format!("tie_depth.{}", depth));
         if depth >= 2 || !matches!(case.mode, Mode::Uniform) {
-            st.distinct.insert(hash_bytes(hash_u64(mu.to_bits(), sigma.to_bits()), &rec));
+            report::keep_distinct(&mut st, hash_bytes(hash_u64(mu.to_bits(), sigma.to_bits()), &rec));
         }
         logh = hash_u64(hash_bytes(logh, &rec), r.as_ref().map(|z| *z as u64).unwrap_or(0xdead));
         if run == 0 && i % 5000 == 17 {
@@ -396,7 +396,7 @@ pub fn one_run(seed: u64, run: u64, calls: usize) -> RunOutcome {
         if depth == 7 {
             st.inc("fault_landed.E2_full_tie");
         }
-        st.distinct.insert(hash_bytes(hash_u64(x.to_bits(), ccs.to_bits()), &b7));
+        report::keep_distinct(&mut st, hash_bytes(hash_u64(x.to_bits(), ccs.to_bits()), &b7));
         logh = hash_u64(logh, hash_bytes(x.to_bits(), &b7));
         if let Some(c) = judge_ber(x, ccs, b7) {
             st.inc("disagreements");
@@ -748,6 +748,9 @@ pub fn rerun(tier: Tier, seed: u64, run: u64) -> Option<RunOutcome> {
 
 pub fn check(tier: Tier, seed: u64) -> i32 {
     let mut rep = Report::new(PROP, tier, seed);
+    if tier == Tier::Thorough {
+        report::DISTINCT_SHIFT.store(6, std::sync::atomic::Ordering::Relaxed);
+    }
     let w = report::workers();
     let (runs, _calls) = sizes(tier);
     corpus(&mut rep);
@@ -755,7 +758,7 @@ pub fn check(tier: Tier, seed: u64) -> i32 {
     let out = report::parallel_runs(runs + ncfg as u64 * chunks, w, |run| dispatch(tier, seed, run));
     rep.absorb(out);
     evaluate_law(&mut rep);
-    rep.rule = "a case is one call of sampler_z (through the H4 wrapper) on a simulator-owned byte stream in mode E1 (uniform), E2 (Bernoulli bytes forced to tie with the comparand on 1..7 bytes, then +-1) or E3 (base-sampler bytes at RCDT[i]-1/RCDT[i]/RCDT[i]+1, 0, 2^72-1), judged in lock-step by the reference SamplerZ over the bytes actually consumed; or one call of base_sampler / approx_exp / ber_exp through the wrappers, compared with the reference on integers; or one of the fixed (mu, sigma') law configurations sampled over uniform streams; non-trivial = a faulted stream, a tie of depth >= 2, or a building-block input; distinct = distinct (parameters, consumed bytes)".into();
+    rep.rule = "a case is one call of sampler_z (through the H4 wrapper) on a simulator-owned byte stream in mode E1 (uniform), E2 (Bernoulli bytes forced to tie with the comparand on 1..7 bytes, then +-1) or E3 (base-sampler bytes at RCDT[i]-1/RCDT[i]/RCDT[i]+1, 0, 2^72-1), judged in lock-step by the reference SamplerZ over the bytes actually consumed; or one call of base_sampler / approx_exp / ber_exp through the wrappers, compared with the reference on integers; or one of the fixed (mu, sigma') law configurations sampled over uniform streams; non-trivial = a faulted stream, a tie of depth >= 2, or a building-block input; distinct = distinct (parameters, consumed bytes)".to_string() + &report::distinct_rule_suffix();
     rep.assumptions = vec![
         "reference RCDT and ApproxExp constants are those of the reference C implementation (PQClean sign.c / fpr.c), the algorithms those of specification Alg. 12-15".into(),
         "float prologue ambiguity (x/ln2 vs x*(1/ln2), last-ulp differences in x) is tolerated: a decision is binding only if it is the same for x and its float neighbours".into(),
